@@ -727,7 +727,47 @@ def ws_marker__explain(src, pos):
 
 # ---------------------------------------------------------------------------------------------
 # obligation table for checks/c18.py.  regions: (harness restricted to the region, id of the finding it must hit)
+# ---- case-insensitive literal construction: every character of a decoded string (code points 0..255) must give its case variants
+#      without an internal exception
+_cdm18 = object.__new__(nmfu.CaseDirectMatch)
+
+
+def _casei_total(c):
+    try:
+        r = _cdm18._create_casei_from(chr(c))
+    except nmfu.NMFUError:
+        return True
+    except Exception:
+        return False
+    return len(r) >= 1
+
+
+def casei_total(c: int) -> bool:
+    """
+    pre: 0 <= c <= 255
+    post: _
+    """
+    return _casei_total(c)
+
+
+def casei_total__reach(c: int) -> bool:
+    """
+    pre: 0 <= c <= 255
+    post: not _
+    """
+    return c >= 200
+
+
+def casei_total__explain(c):
+    try:
+        r = _cdm18._create_casei_from(chr(c))
+        return {'token': repr(chr(c)), 'outcome': repr(r)}
+    except Exception as e:
+        return {'token': repr(chr(c)), 'exc': type(e).__name__, 'observed': str(e)}
+
+
 HARNESSES = {
+    'C18/casei_variants': dict(fn='casei_total', reach=['casei_total__reach']),
     'C18/convert_string': dict(fn='tok_string', reach=['tok_string__reach'], excl='tok_string__excl',
                                regions=[('tok_string__in_1', 'C18-string-uescape-notimplemented'),
                                         ('tok_string__in_2', 'C18-string-unknown-escape-keyerror'),
